@@ -32,15 +32,33 @@ type base struct{ kids []sql.Node }
 
 func (b base) Children() []sql.Node { return b.kids }
 
+// BinaryNode: left = wrapped node, right = trigger logic.
+type BinaryNode struct {
+	left  sql.Node
+	right sql.Node
+}
+
+func (n BinaryNode) Left() sql.Node  { return n.left }
+func (n BinaryNode) Right() sql.Node { return n.right }
+func (n BinaryNode) Children() []sql.Node {
+	return []sql.Node{n.left, n.right}
+}
+
 type TriggerExecutor struct {
-	base
-	Left, Right sql.Node
-	Event       TriggerEvent
-	Time        TriggerTime
+	BinaryNode
+	Event TriggerEvent
+	Time  TriggerTime
 }
 
 func NewTriggerExecutor(child, logic sql.Node, ev TriggerEvent, tm TriggerTime) *TriggerExecutor {
-	return &TriggerExecutor{Left: child, Right: logic, Event: ev, Time: tm}
+	return &TriggerExecutor{BinaryNode: BinaryNode{left: child, right: logic}, Event: ev, Time: tm}
+}
+
+// TransformCtx is what a transform hands to its selector.
+type TransformCtx struct {
+	Node     sql.Node
+	Parent   sql.Node
+	ChildNum int
 }
 
 type TriggerBeginEndBlock struct{ base }
